@@ -46,6 +46,10 @@ def run(ctx):
     from .. import wrappers
     wrappers.accessors(ctx, rep, roles, "C17", "R17.3")
     wrappers.seeds(ctx, rep, roles, "C17", "R17.4")
+    # "a seed is always contacted" needs every selected target to be attempted whatever the earlier sends returned (seed R3-C17-2)
+    from . import c19
+    c19.r19_8(ctx, rep, roles, c19.server_methods(fx))
+    ctx.report.rules[-1].id = "R17.5(R19.8)"
 
 
 def r17_2(ctx, rep, sel):
